@@ -64,6 +64,7 @@ int main(int argc, char ** argv) {
   myth_globalattr_t ga; myth_globalattr_init(&ga); myth_globalattr_set_n_workers(&ga, W);
   myth_init_ex(&ga);
   ctl_init(W);
+  memset(&fe, 0x5a, sizeof fe);            /* an initialisation must not rely on zero-filled memory */
   myth_felock_init(&fe, 0);
   ctl_name_obj_sz(&fe.cond[0], 2, 0, sizeof(fe.cond[0]));
   ctl_name_obj_sz(&fe.cond[1], 3, 0, sizeof(fe.cond[1]));
